@@ -53,20 +53,31 @@ def pipe_items(tier, kinds_q, kinds_t=None, k1=True, k1_rules=None, big=True, ge
             out += configs_k1.items_for_own_fixtures(limit_values=2, rules=k1_rules)
     else:
         kt = kinds_t or kinds_q
-        out += universe.one_dev(corpus.seed_ids(("fix", "cls")), kt)
-        out += universe.one_dev(corpus.seed_ids(("gen",)), gen_thorough_kinds or kinds_q)
+        wide = wide_kinds(kinds_q, kt)
+        out += universe.one_dev(corpus.seed_ids(("fix", "cls")), wide)
+        out += universe.one_dev(corpus.small_slice(), [k for k in kt if k not in wide])
+        out += universe.one_dev(corpus.seed_ids(("gen",)), gen_thorough_kinds or kinds_q[:1])
         if k1:
             out += configs_k1.items_for_own_fixtures(limit_values=None, rules=k1_rules)
     return out
 
 
+CHEAP = ("J", "CO", "BL", "CEE", "CEG", "IND0", "IND3", "TW")  # operators with one position per line (not one per gap)
+
+
+def wide_kinds(kinds_q, kinds_t):
+    """operators applied to every fix/cls seed in the thorough tier: the first two of the quick set plus every per-line operator"""
+    return list(kinds_q[:2]) + [k for k in kinds_t if k in CHEAP and k not in kinds_q[:2]]
+
+
 def bound_text(tier, kinds_q, kinds_t=None):
-    return (
-        "0 deviations: all 1906 fix/cls/gen seeds + 23 large examples x {default, jcl, indent_only}" + (" (generated seeds: default and jcl only)" if tier == "quick" else "") + "; 1 layout deviation ("
-        + ",".join(kinds_q if tier == "quick" else (kinds_t or kinds_q))
-        + ") at every applicable position of "
-        + ("the small-seed slice S_q (<=25 lines)" if tier == "quick" else "every fix/cls seed (and S_gen with the quick operator set)")
-        + "; 1 configuration deviation (documented option values, K1"
-        + (", first 2 values per option" if tier == "quick" else "")
-        + ") of each rule on its own fixture"
-    )
+    z = "0 deviations: all 1906 fix/cls/gen seeds + 23 large examples x {default, jcl, indent_only}" + (" (generated seeds: default and jcl only)" if tier == "quick" else "")
+    if tier == "quick":
+        d = "1 layout deviation (" + ",".join(kinds_q) + ") at every applicable position of the small-seed slice S_q (<=25 lines, 176 seeds)"
+        k = "1 configuration deviation (documented option values, first 2 per option) of each rule on its own fixture"
+    else:
+        w = wide_kinds(kinds_q, kinds_t or kinds_q)
+        d = ("1 layout deviation: (" + ",".join(w) + ") at every position of every fix/cls seed; (" + ",".join(k for k in (kinds_t or kinds_q) if k not in w)
+             + ") at every position of S_q (211 seeds); (" + kinds_q[0] + ") at every position of every generated seed")
+        k = "1 configuration deviation (every documented option value) of each rule on its own fixture"
+    return z + "; " + d + "; " + k
